@@ -81,7 +81,47 @@ Proof.
   apply H.
 Qed.
 
-(* ---------- the allocation from the size field ---------- *)
+(* ---------- the allocation from the size field (checked against the file length since c47a865) ---------- *)
+Lemma alloc_le_hdr now f : alloc_size now f <= hdr_size f.
+Proof. unfold alloc_size. destruct (hdr_readable now f && size_fits f); lia. Qed.
+
+(* for EVERY file, garbage included: the buffer requested is never larger than what the file holds behind its header *)
+Lemma alloc_le_file now f : alloc_size now f <= N.of_nat (length f - 16).
+Proof.
+  unfold alloc_size. destruct (hdr_readable now f); cbn [andb]; [|lia].
+  destruct (size_fits f) eqn:E; [|lia]. apply size_fits_spec in E. tauto.
+Qed.
+
+(* when load returns a value the buffer was exactly as long as that value *)
+Lemma alloc_exact now f t' d' : read_from_file now f = Some (t', d') -> alloc_size now f = N.of_nat (length d').
+Proof.
+  intros H. destruct (read_spec now f t' d' H) as (L16 & Et & Hn & El & _).
+  pose proof (read_fits now f _ H) as Hf. unfold alloc_size, hdr_readable. rewrite Hf. subst t'.
+  destruct (Nat.ltb_spec (length f) 8); [lia|]. destruct (Nat.ltb_spec (length f) 16); [lia|].
+  destruct (Z.ltb_spec (hdr_deadline f) now); [lia|]. cbn [negb andb]. symmetry. exact El.
+Qed.
+
+(* hence, whatever the file contains: with as much memory as the file is long, load never throws and is the plain load *)
+Lemma load_limited_file_enough limit now nm d f :
+  lookup nm d = Some f -> N.of_nat (length f - 16) <= limit ->
+  load_limited limit now nm d =
+    match load now nm d with (Some (t, x), d') => (LSome t x, d') | (None, d') => (LNone, d') end.
+Proof.
+  intros Hl Hs. unfold load_limited. rewrite Hl. unfold alloc_fails.
+  pose proof (alloc_le_file now f). destruct (N.ltb_spec limit (alloc_size now f)); [lia|]. reflexivity.
+Qed.
+
+(* load_limited answers LExc only when the file itself is longer than the memory available *)
+Lemma load_limited_exc limit now nm d d' :
+  load_limited limit now nm d = (LExc, d') -> exists f, lookup nm d = Some f /\ limit + 16 < N.of_nat (length f) /\ d' = d.
+Proof.
+  unfold load_limited. destruct (lookup nm d) as [f|] eqn:El; [|discriminate].
+  destruct (alloc_fails limit now f) eqn:Ea.
+  - intros [= <-]. exists f. split; [reflexivity|]. split; [|reflexivity].
+    unfold alloc_fails in Ea. apply N.ltb_lt in Ea. pose proof (alloc_le_file now f). lia.
+  - destruct (load now nm d) as [[[t x]|] d'']; discriminate.
+Qed.
+
 (* after any history of saves and crashes the size field is 0 or the length of a saved payload: the allocation is as
    large as a value the application itself stored, never larger *)
 Lemma history_alloc_ok ops limit now :
@@ -89,34 +129,39 @@ Lemma history_alloc_ok ops limit now :
   alloc_fails limit now (cur (run ops)) = false.
 Proof.
   intros Hok Hlim. pose proof (run_inv ops Hok) as Hi. unfold alloc_fails.
-  destruct (run ops) as [f|]; cbn [cur st_inv] in *; [|reflexivity].
+  apply N.ltb_ge.
+  destruct (run ops) as [f|]; cbn [cur st_inv] in *; [|change (alloc_size now []) with 0; lia].
+  eapply N.le_trans; [apply alloc_le_hdr|].
   destruct Hi as [E|[L [H|(t & d & Hin & (Ht & Hd & Hs) & E)]]].
-  - subst f. reflexivity.
-  - rewrite (hdr_size_16 f), H. change (hdr_size (repeat 0 16)) with 0.
-    destruct (N.ltb_spec limit 0); [lia|]. rewrite andb_false_r. reflexivity.
+  - subst f. change (hdr_size []) with 0. lia.
+  - rewrite (hdr_size_16 f), H. change (hdr_size (repeat 0 16)) with 0. lia.
   - cbn [fst snd] in *. rewrite (hdr_size_16 f), E, hdr_size_header.
     unfold small in Hs. rewrite N.mod_small by (change (2 ^ 32) with 4294967296; change (2 ^ 31) with 2147483648 in Hs; lia).
-    specialize (Hlim t d Hin). destruct (N.ltb_spec limit (N.of_nat (length d))); [lia|]. rewrite andb_false_r. reflexivity.
+    exact (Hlim t d Hin).
 Qed.
 
-(* but a planted 19-byte file with a well-formed name asks for 2 GiB: with less memory than that load throws, returns nothing
-   and removes nothing, and gc keeps the file as long as its timestamp is in the future *)
+(* regression example for the repaired defect: a planted 19-byte file with a well-formed name, a deadline in the future and a
+   size field of 2 GiB - 16.  The unchecked reader asked for 2 GiB; the reader as it is now asks for nothing, reports that there is
+   no session and removes the file, with any amount of memory *)
 Definition g_file : list N := enc_s64 5000 ++ le_bytes 4 0 ++ le_bytes 4 2147483632 ++ [97; 98; 99].
-Lemma garbage_alloc_witness :
-  length g_file = 19%nat /\ alloc_fails (2 ^ 30) 1000 g_file = true /\ timestamp_ok 1000 g_file = true /\
-  forall nm, load_limited (2 ^ 30) 1000 nm [(nm, g_file)] = (LExc, [(nm, g_file)]).
+Lemma garbage_alloc_regression :
+  length g_file = 19%nat /\ timestamp_ok 1000 g_file = true /\
+  alloc_size_unchecked 1000 g_file = 2147483632 /\ alloc_size 1000 g_file = 0 /\
+  forall limit nm, load_limited limit 1000 nm [(nm, g_file)] = (LNone, []).
 Proof.
   split; [reflexivity|]. split; [vm_compute; reflexivity|]. split; [vm_compute; reflexivity|].
-  intros nm. unfold load_limited. cbn [lookup]. rewrite name_eqb_refl.
-  replace (alloc_fails (2 ^ 30) 1000 g_file) with true by (vm_compute; reflexivity). reflexivity.
+  assert (alloc_size 1000 g_file = 0) as A by (vm_compute; reflexivity). split; [exact A|].
+  intros limit nm. unfold load_limited, load. cbn [lookup]. rewrite name_eqb_refl.
+  unfold alloc_fails. rewrite A. destruct (N.ltb_spec limit 0); [lia|].
+  replace (read_from_file 1000 g_file) with (@None (Z * list N)) by (vm_compute; reflexivity).
+  unfold remove. cbn [filter fst]. rewrite name_eqb_refl. reflexivity.
 Qed.
 
-(* with enough memory the same file is simply unreadable and removed *)
-Lemma load_limited_enough limit now nm d f :
-  lookup nm d = Some f -> hdr_size f <= limit ->
-  load_limited limit now nm d =
-    match load now nm d with (Some (t, x), d') => (LSome t x, d') | (None, d') => (LNone, d') end.
-Proof.
-  intros Hl Hs. unfold load_limited. rewrite Hl. unfold alloc_fails.
-  destruct (N.ltb_spec limit (hdr_size f)); [lia|]. rewrite andb_false_r. reflexivity.
-Qed.
+(* the same header in front of a file that really holds the bytes is still accepted, trailing bytes included:
+   the test is against the file length, not against 16 + size *)
+Definition g_ok : list N := enc_s64 5000 ++ le_bytes 4 (crc32 [97; 98; 99]) ++ le_bytes 4 3 ++ [97; 98; 99; 100; 101].
+Lemma trailing_bytes_accepted :
+  length g_ok = 21%nat /\ read_from_file 1000 g_ok = Some (5000%Z, [97; 98; 99]) /\ alloc_size 1000 g_ok = 3 /\
+  read_from_file 1000 (firstn 18 g_ok) = None /\ alloc_size 1000 (firstn 18 g_ok) = 0 /\
+  alloc_size_unchecked 1000 (firstn 18 g_ok) = 3.
+Proof. repeat split; vm_compute; reflexivity. Qed.
